@@ -285,6 +285,7 @@ class NMP:
 class NM(Component):
   def construct(s):
     s.a = InPort({wa}); s.b = InPort({wb}); s.c = InPort(1); s.o = OutPort({wo}); s.o1 = OutPort(1); s.os = OutPort(NMP)
+    s.tbl = [mk_bits({wb})(1), mk_bits({wb})(2 % (1 << {wb})), mk_bits({wb})(3 % (1 << {wb}))]; s.N = 2          # a table of sized constants and an int
     @update
     def up():
       {stmt}
@@ -295,7 +296,7 @@ def gen_nearmiss(rng):
   """-> (source, description).  half of them are exactly well-typed, the others off by one somewhere"""
   w = rng.choice([1, 2, 3, 4, 7, 8, 9, 16, 31, 32, 33, 48, 49, 50, 63, 64, 65, 100])
   d = rng.choice([0, 0, 1, -1]) if w > 1 else rng.choice([0, 1])
-  shape = rng.randrange(24)
+  shape = rng.randrange(25)
   wa, wb, wo = w, w + d, w
   lit_k = rng.choice([w - 1, w, w + 1, w, w])
   lit = rng.choice([(1 << lit_k) - 1, 1 << lit_k, (1 << lit_k) + 1]) if lit_k >= 0 else 1
@@ -370,6 +371,10 @@ def gen_nearmiss(rng):
     if rng.random() < 0.5: br.reverse()
     use = rng.choice([f"s.o @= x", f"s.o @= s.a {op} x", f"s.o1 @= s.a {cmp_} x"])
     stmt = f"if s.c:\n        {br[0]}\n      else:\n        {br[1]}\n      {use}"
+  elif shape == 24:
+    # an element of a table of SIZED constants picked by a constant expression ( s.tbl[s.N - 1] ): it is wb bits wide, full stop
+    ix = rng.choice(["s.N - 1", "s.N", "0 + 1", "1"])
+    stmt = rng.choice([f"s.o @= s.tbl[{ix}]", f"s.o @= s.a {op} s.tbl[{ix}]", f"s.o1 @= s.a {cmp_} s.tbl[{ix}]"])
   elif shape == 23:
     # literal arguments of a bitstruct constructor: each must fit its field (field x is w bits wide, y 4 bits)
     wb = w
